@@ -1,6 +1,10 @@
 #!/usr/bin/env python3
-"""Apply a seeded change (/verif/seeded/<name>/patch.diff) to /repo, run checks, undo the change.
-usage: python3 scripts/try_seeded.py <name> [--tier quick|thorough] [--seed N] [--baseline] Cxx [Cyy ...]
+"""Apply a seeded change (/verif/seeded/<name>/patch.diff), run checks, undo the change.
+Default (--inplace): the patch is applied to /repo itself and undone with `git checkout -- .` (nothing else may build from /repo meanwhile).
+--scratch: the patch is applied to a fresh git worktree of /repo's HEAD under /tmp and the same checks are run against it
+(VERIF_REPO=<worktree>, VERIF_BUILD=<private copy of /verif/.build>), so a trial neither touches /repo nor /verif/evidence and can run beside
+other checks; worktree and private build root are removed afterwards.
+usage: python3 scripts/try_seeded.py <name> [--scratch] [--tier quick|thorough] [--seed N] [--baseline] Cxx [Cyy ...]
 Prints one line per check: caught (exit 1 with a VIOLATION line) / missed (exit 0) / inconclusive (exit 2) and appends the result to
 /verif/seeded/<name>/results.jsonl.  --baseline also runs the repository's own tests with the change applied (must still pass)."""
 import json, os, subprocess, sys, time
@@ -15,7 +19,7 @@ def sh(cmd, **kw):
 def main():
     a = sys.argv[1:]
     name = a.pop(0)
-    tier, seed, baseline = 'quick', '1', False
+    tier, seed, baseline, scratch = 'quick', '1', False, False
     checks = []
     while a:
         t = a.pop(0)
@@ -25,10 +29,16 @@ def main():
             seed = a.pop(0)
         elif t == '--baseline':
             baseline = True
+        elif t == '--scratch':
+            scratch = True
+        elif t == '--inplace':
+            scratch = False
         else:
             checks.append(t)
     d = os.path.join(VERIF, 'seeded', name)
     patch = os.path.join(d, 'patch.diff')
+    if scratch:
+        return run_scratch(name, d, patch, tier, seed, checks)
     st = sh('git -C /repo status --porcelain --untracked-files=no')
     if st.stdout.strip():
         print('refusing: /repo has local modifications:\n' + st.stdout); return 2
@@ -57,6 +67,44 @@ def main():
         st = sh('git -C /repo status --porcelain --untracked-files=no')
         if st.stdout.strip():
             print('WARNING: /repo not clean after undo:\n' + st.stdout)
+    with open(os.path.join(d, 'results.jsonl'), 'a') as f:
+        for o in out:
+            f.write(json.dumps(o) + '\n')
+    return 0
+
+
+def run_scratch(name, d, patch, tier, seed, checks):
+    import shutil
+    wt = '/tmp/seedtry_' + name
+    bd = os.path.join(VERIF, '.build', 'scratch', name)
+    sh('git -C /repo worktree remove --force ' + wt); shutil.rmtree(bd, ignore_errors=True)
+    r = sh('git -C /repo worktree add --detach %s HEAD' % wt)
+    if r.returncode:
+        print('cannot create worktree: ' + r.stderr); return 2
+    out = []
+    try:
+        for f in ('src/expr-info.cc', 'nl-writer2/include/mp/nl-opcodes.h'):      # generated, git-ignored files of the pinned tree
+            shutil.copy2(os.path.join('/repo', f), os.path.join(wt, f))
+        r = sh('git -C %s apply --whitespace=nowarn %s' % (wt, patch))
+        if r.returncode:
+            print('patch does not apply: ' + r.stderr); return 2
+        os.makedirs(bd)
+        for v in ('asan', 'asanfull', 'plain', 'fuzz', 'tsan'):                  # start from the object cache (keys are content hashes)
+            src = os.path.join(VERIF, '.build', v)
+            if os.path.isdir(src):
+                shutil.copytree(src, os.path.join(bd, v))
+        env = dict(os.environ, VERIF_REPO=wt, VERIF_BUILD=bd)
+        for c in checks:
+            t0 = time.time()
+            p = sh('%s/check %s --tier %s --seed %s' % (VERIF, c, tier, seed), cwd=VERIF, env=env)
+            viol = [l for l in p.stdout.split('\n') if l.startswith('VIOLATION')]
+            verdict = 'caught' if p.returncode == 1 and viol else 'missed' if p.returncode == 0 else 'inconclusive(%d)' % p.returncode
+            keys = sorted(set(l.split('#', 1)[1].strip().split(': ')[0] for l in viol if '#' in l))
+            print('%-28s %s %s seed %s: %s %s  %.0fs' % (name, c, tier, seed, verdict, keys[:4], time.time() - t0))
+            out.append(dict(kind='check', check=c, tier=tier, seed=seed, verdict=verdict, keys=keys, mode='scratch-worktree', tail=(p.stdout + p.stderr)[-400:] if verdict.startswith('inconcl') else ''))
+    finally:
+        sh('git -C /repo worktree remove --force ' + wt)
+        shutil.rmtree(bd, ignore_errors=True)
     with open(os.path.join(d, 'results.jsonl'), 'a') as f:
         for o in out:
             f.write(json.dumps(o) + '\n')
